@@ -3,7 +3,7 @@
     op (harness/src/ops/c13.rs [perturbed]).  No proofs here. *)
 From Coq Require Import ZArith List Bool String.
 From V Require Import Base.Int Base.IO Model.Items.
-From V Require Model.Scan Model.Parse Model.Strftime Model.Format.
+From V Require Model.Scan Model.Parse Model.Parsed Model.Strftime Model.Format.
 From V Require Model.Date Model.Time Model.DateTime.
 Import ListNotations.
 Open Scope Z_scope.
@@ -102,6 +102,60 @@ Definition perturbed (ra : R Model.Format.fmt_args) (f : bytes) (seed : Z) : R (
   let* a := ra in
   perturbed_loop (S (Model.Strftime.sf_bound f)) a (Model.Strftime.sf_new f) seed [].
 
+(** ** explicit item lists (fp.irt / fp.iparse): the inverse of Model/Items.v [enc_item] *)
+Definition numeric_of_idx (k : Z) : option Numeric :=
+  find (fun n => numeric_idx n =? k)
+       [N_Year; N_YearDiv100; N_YearMod100; N_IsoYear; N_IsoYearDiv100; N_IsoYearMod100; N_Quarter; N_Month; N_Day;
+        N_WeekFromSun; N_WeekFromMon; N_IsoWeek; N_NumDaysFromSun; N_WeekdayFromMon; N_Ordinal; N_Hour; N_Hour12;
+        N_Minute; N_Second; N_Nanosecond; N_Timestamp].
+Definition fixed_of_idx (k : Z) : option Fixed :=
+  find (fun f => fixed_idx f =? k)
+       [F_ShortMonthName; F_LongMonthName; F_ShortWeekdayName; F_LongWeekdayName; F_LowerAmPm; F_UpperAmPm;
+        F_Nanosecond; F_Nanosecond3; F_Nanosecond6; F_Nanosecond9; F_TimezoneName; F_TimezoneOffsetColon;
+        F_TimezoneOffsetDoubleColon; F_TimezoneOffsetTripleColon; F_TimezoneOffsetColonZ; F_TimezoneOffset;
+        F_TimezoneOffsetZ; F_RFC2822; F_RFC3339; F_Internal I_TimezoneOffsetPermissive;
+        F_Internal I_Nanosecond3NoDot; F_Internal I_Nanosecond6NoDot; F_Internal I_Nanosecond9NoDot].
+Definition pad_of_idx (k : Z) : option Pad :=
+  if k =? 0 then Some PadNone else if k =? 1 then Some PadZero else if k =? 2 then Some PadSpace else None.
+Definition dec_item (v : val) : option Item :=
+  match v with
+  | VTup [VInt 0; VStr s] => if Model.Strftime.utf8_valid s then Some (Literal s) else None
+  | VTup [VInt 1; VStr s] => if Model.Strftime.utf8_valid s then Some (Space s) else None
+  | VTup [VInt 2; VInt n; VInt p] =>
+      match numeric_of_idx n, pad_of_idx p with Some n', Some p' => Some (INumeric n' p') | _, _ => None end
+  | VTup [VInt 3; VInt f] => option_map IFixed (fixed_of_idx f)
+  | VTup [VInt 4] => Some IError
+  | _ => None
+  end.
+Fixpoint dec_items (l : list val) : option (list Item) :=
+  match l with
+  | [] => Some []
+  | v :: r => match dec_item v, dec_items r with Some i, Some is => Some (i :: is) | _, _ => None end
+  end.
+
+(* format::parse(&mut Parsed::new(), text, items) and the resolution of the kind *)
+Definition parse_items_kind (kind : Z) (text : bytes) (items : list Item) : val :=
+  let p := Model.Parse.parse Model.Parsed.parsed_new text items in
+  let resolve {A} (f : Model.Parsed.parsed -> Model.Scan.PR A) : Model.Scan.PR A := Model.Scan.pbind p f in
+  if kind =? 0 then Model.Parse.val_of_PR Model.DateTime.enc_date
+                      (resolve (fun q => Model.Parse.pr_of (Model.Parsed.to_naive_date q)))
+  else if kind =? 1 then Model.Parse.val_of_PR Model.Time.enc_time
+                      (resolve (fun q => Model.Parse.pr_of (Model.Parsed.to_naive_time q)))
+  else if kind =? 2 then Model.Parse.val_of_PR Model.DateTime.enc_ndt
+                      (resolve (fun q => Model.Parse.pr_of (Model.Parsed.to_naive_datetime_with_offset q 0)))
+  else Model.Parse.val_of_PR Model.DateTime.enc_dtz
+                      (resolve (fun q => Model.Parse.pr_of (Model.Parsed.to_datetime q))).
+(* value.format_with_items(items.iter()).to_string() through `write!` *)
+Definition format_items (ra : R Model.Format.fmt_args) (items : list Item) : R (option bytes) :=
+  let* a := ra in Model.Format.write_items a items [].
+Definition after_format_items (kind : Z) (text : R (option bytes)) (items : list Item) : val :=
+  match text with
+  | Val (Some s) => parse_items_kind kind s items
+  | Val None => VErr B"fmt"
+  | Panic => VPanic
+  | OutOfFuel => VFuel
+  end.
+
 Definition run (op : bytes) (args : list val) : val :=
   if op_is op "fp.fmt" then
     match args with
@@ -167,6 +221,36 @@ Definition run (op : bytes) (args : list val) : val :=
               | Val None => VErr B"fmt"
               | Panic => VPanic
               | OutOfFuel => VFuel
+              end
+          end
+        else VBad
+    | _ => VBad
+    end
+  else if op_is op "fp.irt" then
+    match args with
+    | [VInt kind; v; VTup l] =>
+        match dec_fa kind v, dec_items l with
+        | Some ra, Some items => after_format_items kind (format_items ra items) items
+        | _, _ => VBad
+        end
+    | _ => VBad
+    end
+  else if op_is op "fp.iparse" then
+    match args with
+    | [VInt kind; VStr text; VTup l] =>
+        if Model.Strftime.utf8_valid text && (0 <=? kind) && (kind <=? 3) then
+          match dec_items l with
+          | None => VBad
+          | Some items =>
+              match parse_items_kind kind text items with
+              | VErr e => VErr e
+              | VPanic => VPanic
+              | VFuel => VFuel
+              | v =>
+                  match dec_fa kind v with
+                  | None => VErr B"MODEL"
+                  | Some ra => VTup [v; after_format_items kind (format_items ra items) items]
+                  end
               end
           end
         else VBad
